@@ -52,8 +52,8 @@ P["C05"] = dict(cat="proof",
          "between the ends of its coforest edge): every 'yes' of any size is certified; by-construction instances carry the generating "
          "graph as a witness the judge verifies (expected yes), non-graphic cores verified by the brute-force oracle give expected no "
          "by heredity; verdict vs. brute-force definition for <= 4 rows (both entry points).",
-    note=NOTE_COMMON + "The brute-force oracle graphic_bf is proved sound for 'yes' via the certificate; its completeness (a 'no' of the oracle means non-graphic) "
-         "rests on the enumeration of all forests on m+1 nodes and is not formalised. The certificate checker is proved EQUIVALENT to the "
+    note=NOTE_COMMON + "The brute-force oracle graphic_bf is proved sound and complete for the class the certificates define "
+         "(GraphicOracle.v: graphic_bf = true <-> GraphicP, every size). The certificate checker is proved EQUIVALENT to the "
          "Prop-level specification (GraphComplete.v), and the certified class closed under submatrices (GraphicClosure.v). graphic.c "
          "(Bixby-Wagner) is not modelled.",
     tech="Coq-verified certificate checker + brute-force definition oracle (<= 4 rows) run against CMRgraphicTest*", ref="DESIGN.md C05")
